@@ -735,9 +735,90 @@ func (in *inliner) tryStmt(file *ast.File, encl *ast.FuncDecl, s ast.Stmt) bool 
 			if st := in.firstCall(x.Tag); st != nil {
 				return in.hoistHeader(file, st, s, fname, x.Pos(), x.Body.Lbrace, x.End(), nil, "switch")
 			}
+		} else if in.switchToIfChain(fname, x) {
+			return true
 		}
 	}
 	return false
+}
+
+// switchToIfChain rewrites a tagless switch one of whose case expressions calls a new helper into the
+// if / else-if chain it abbreviates (the next round then inlines the helper in the conditions). Only when
+// the chain means the same: default last or absent, no fallthrough, no unlabelled break that would leave
+// the switch. Keywords are edited in place, so every line stays where it was.
+func (in *inliner) switchToIfChain(fname string, x *ast.SwitchStmt) bool {
+	if x.Init != nil || x.Tag != nil || len(x.Body.List) == 0 {
+		return false
+	}
+	hasSite := false
+	for i, st := range x.Body.List {
+		cc := st.(*ast.CaseClause)
+		if cc.List == nil && i != len(x.Body.List)-1 {
+			return false // default in the middle
+		}
+		for _, e := range cc.List {
+			if in.firstCall(e) != nil {
+				hasSite = true
+			}
+		}
+		bad := false
+		for _, b := range cc.Body {
+			ast.Inspect(b, func(n ast.Node) bool {
+				switch y := n.(type) {
+				case *ast.FuncLit, *ast.ForStmt, *ast.RangeStmt, *ast.SwitchStmt, *ast.TypeSwitchStmt, *ast.SelectStmt:
+					// a break inside these belongs to them
+					if _, isFor := n.(*ast.ForStmt); isFor {
+						return false
+					}
+					return false
+				case *ast.BranchStmt:
+					if y.Tok == token.FALLTHROUGH || (y.Tok == token.BREAK && y.Label == nil) {
+						bad = true
+					}
+				}
+				return true
+			})
+		}
+		if bad {
+			return false
+		}
+	}
+	if !hasSite {
+		return false
+	}
+	// `switch {` -> `{`
+	in.edits[fname] = append(in.edits[fname], textEdit{in.off(x.Pos()), in.off(x.Body.Lbrace), ""})
+	for i, st := range x.Body.List {
+		cc := st.(*ast.CaseClause)
+		prefix := "} else "
+		if i == 0 {
+			prefix = ""
+		}
+		if cc.List == nil {
+			// default:
+			if i == 0 {
+				in.edits[fname] = append(in.edits[fname], textEdit{in.off(cc.Pos()), in.off(cc.Colon) + 1, "{"})
+			} else {
+				in.edits[fname] = append(in.edits[fname], textEdit{in.off(cc.Pos()), in.off(cc.Colon) + 1, "} else {"})
+			}
+			continue
+		}
+		var conds []string
+		for _, e := range cc.List {
+			conds = append(conds, "("+in.text(fname, e.Pos(), e.End())+")")
+		}
+		cond := strings.Join(conds, " || ")
+		if len(conds) == 1 {
+			cond = in.text(fname, cc.List[0].Pos(), cc.List[0].End())
+		}
+		// multi-line case lists keep their newlines inside the parentheses
+		in.edits[fname] = append(in.edits[fname], textEdit{in.off(cc.Pos()), in.off(cc.Colon) + 1, prefix + "if " + cond + " {"})
+	}
+	// the switch's closing brace closes the last arm; one more closes the block
+	in.edits[fname] = append(in.edits[fname], textEdit{in.off(x.Body.Rbrace), in.off(x.Body.Rbrace) + 1, "}}"})
+	in.sites++
+	in.log = append(in.log, fmt.Sprintf("tagless switch rewritten as an if chain at %s", in.fset.Position(x.Pos())))
+	return true
 }
 
 func (in *inliner) initSite(init ast.Stmt) *site {
